@@ -834,6 +834,19 @@ func (e *Env) trCall(x *Call) Val {
 	vc := e.vc
 	argS := func(i int) (string, Ty) { return e.tr(x.Args[i]) }
 	switch x.Fun {
+	case "since":
+		// since(label, e): e with old(...) referring to the labelled state (loopK / preK / call) instead of the entry state
+		id, ok := x.Args[0].(*Ident)
+		if !ok || len(x.Args) != 2 {
+			specFail("since(label, expr)")
+		}
+		st, ok := e.loopAt[id.Name]
+		if !ok {
+			specFail("since(%s, ..) not available here", id.Name)
+		}
+		n := *e
+		n.old = st
+		return n.trVal(x.Args[1])
 	case "len":
 		v := e.trVal(x.Args[0])
 		t := v.ty()
@@ -1115,6 +1128,9 @@ func (vc *VC) parseGoType(s string) types.Type {
 	if strings.HasPrefix(s, "*") {
 		t := vc.parseGoType(s[1:])
 		return types.NewPointer(t)
+	}
+	if strings.HasPrefix(s, "[]") {
+		return types.NewSlice(vc.parseGoType(s[2:]))
 	}
 	t := vc.P.lookupType(s, vc.curPkg)
 	if t == nil {
